@@ -89,6 +89,8 @@ struct results
     std::map<std::string, std::size_t> abort_reasons;
     std::vector<std::string> samples;
     std::vector<std::string> smt2_files;
+    std::size_t validated_paths = 0;                   // completed symbolic paths re-run concretely (native type) with a model of the path condition
+    std::vector<std::string> validation_disagreements; // checks that the symbolic run discharged but the concrete run of the same path fails
 };
 
 
@@ -170,6 +172,32 @@ public:
         return a.k == NANK ? "nan" : (a.k == PINF ? "inf" : "-inf");
     }
 
+    static std::string model_value(z3::model& m, z3::expr const& input)
+    {
+        z3::expr val = m.eval(input, true);
+        std::string s;
+#ifdef SYM_FP
+        {
+            z3::expr bits = val.mk_to_ieee_bv().simplify();
+            std::string b = bits.is_numeral() ? bits.get_decimal_string(0) : std::string("0");
+            unsigned __int128 w = 0;
+            for (char ch : b) if (ch >= '0' && ch <= '9') w = w * 10 + static_cast<unsigned>(ch - '0');
+            SYM_NATIVE x = 0;
+            std::memcpy(&x, &w, SYM_DIGITS == 64 ? 10 : sizeof(SYM_NATIVE));
+            std::ostringstream o;
+            o.precision(40);
+            o << x;
+            s = o.str();
+        }
+#else
+        if (val.is_numeral()) s = val.get_decimal_string(40);
+        else if (val.is_algebraic()) s = val.get_decimal_string(40);
+        else { std::ostringstream o; o << val; s = o.str(); }
+#endif
+        if (!s.empty() && s.back() == '?') s.pop_back();
+        return s;
+    }
+
     void check(std::string const& name, cond<real> const& c)
     {
         engine& g = E();
@@ -211,28 +239,7 @@ public:
         v.choices = g.user_choices;
         for (std::size_t i = 0; i != g.inputs.size(); ++i)
         {
-            z3::expr val = m.eval(g.inputs[i], true);
-            std::string s;
-#ifdef SYM_FP
-            {
-                // value of a floating point input: exact decimal expansion through the IEEE bit pattern
-                z3::expr bits = val.mk_to_ieee_bv().simplify();
-                std::string b = bits.is_numeral() ? bits.get_decimal_string(0) : std::string("0");
-                unsigned __int128 w = 0;
-                for (char ch : b) if (ch >= '0' && ch <= '9') w = w * 10 + static_cast<unsigned>(ch - '0');
-                SYM_NATIVE x = 0;
-                std::memcpy(&x, &w, SYM_DIGITS == 64 ? 10 : sizeof(SYM_NATIVE));
-                std::ostringstream o;
-                o.precision(40);
-                o << x;
-                s = o.str();
-            }
-#else
-            if (val.is_numeral()) s = val.get_decimal_string(40);
-            else if (val.is_algebraic()) s = val.get_decimal_string(40);
-            else { std::ostringstream o; o << val; s = o.str(); }
-#endif
-            if (!s.empty() && s.back() == '?') s.pop_back();
+            std::string s = model_value(m, g.inputs[i]);
             v.input_names.push_back(g.input_names[i]);
             v.input_values.push_back(s);
         }
@@ -471,6 +478,35 @@ int run_harness(std::string const& harness_name, options const& opt, BodyS body_
     h.cfg = opt.cfg;
     h.res = &res;
     h.smt2_dir = opt.smt2_dir;
+    // concrete run of the same body with the native numeric type on given inputs / harness choices
+    auto run_concrete = [&](std::vector<std::string> const& values, std::vector<int> const& choices, std::string& what) {
+        H<SYM_NATIVE> hd;
+        hd.cfg = opt.cfg;
+        hd.choices = choices;
+        for (auto const& sv : values)
+        {
+            SYM_NATIVE d = 0;
+            try { d = parse_decimal(sv); } catch (...) { d = 0; }
+            hd.inputs.push_back(d);
+        }
+        concrete_hook::h() = &hd;
+        canon_table<SYM_NATIVE>::table().clear();
+        canon_table<SYM_NATIVE>::draws().clear();
+        std::set<std::string> failed;
+        try
+        {
+            trap::armed() = true;
+            if (setjmp(trap::buf()) == 0) body_dbl(hd);
+            else { hd.failed.insert("no_assertion_failure"); what = trap::message(); }
+            trap::armed() = false;
+        }
+        catch (std::exception const& ex) { hd.failed.insert("no_unexpected_exception"); what = ex.what(); }
+        catch (abort_path const&) {}
+        concrete_hook::h() = nullptr;
+        return hd.failed;
+    };
+    std::size_t const validate_max = 2;
+
     std::vector<dec> prefix;
     bool complete = false;
     bool budget_hit = false;
@@ -531,6 +567,30 @@ int run_harness(std::string const& harness_name, options const& opt, BodyS body_
             // short paths (fewer decisions than the split depth) belong to part 0
             res = snapshot;
             finished = false;
+        }
+        if (finished && res.validated_paths < validate_max && res.violations.empty())
+        {
+            // translator validation: a model of this path's condition, run through the real code with the native type,
+            // must not fail any obligation the symbolic run discharged
+            z3::model m(g.ctx);
+            if (g.check({}, &m) == z3::sat)
+            {
+                std::vector<std::string> values;
+                for (auto const& in : g.inputs) values.push_back(H<real>::model_value(m, in));
+                std::vector<int> const choices = g.user_choices;
+                std::string what;
+                std::set<std::string> const failed = run_concrete(values, choices, what);
+                ++res.validated_paths;
+                for (auto const& n : failed) res.validation_disagreements.push_back(n + (what.empty() ? "" : (" (" + what + ")")));
+                if (!failed.empty() && std::getenv("SYM_DEBUG_VALIDATION"))
+                {
+                    std::ofstream f(std::getenv("SYM_DEBUG_VALIDATION"));
+                    f << "validation\n";
+                    for (auto c : choices) f << c << " ";
+                    f << "\n";
+                    for (auto const& v : values) f << v << "\n";
+                }
+            }
         }
         if (finished)
         {
@@ -647,7 +707,9 @@ int run_harness(std::string const& harness_name, options const& opt, BodyS body_
         first = false; } }
     o << "\n ],\n \"samples\": [";
     { bool first = true; for (auto const& s : res.samples) { o << (first ? "" : ",") << "\n  \"" << jesc(s) << "\""; first = false; } }
-    o << "\n ],\n \"smt2_files\": " << res.smt2_files.size() << "\n}\n";
+    o << "\n ],\n \"validated_paths\": " << res.validated_paths << ", \"validation_disagreements\": [";
+    { bool first = true; for (auto const& s : res.validation_disagreements) { o << (first ? "" : ", ") << "\"" << jesc(s) << "\""; first = false; } }
+    o << "],\n \"smt2_files\": " << res.smt2_files.size() << "\n}\n";
 
     if (!opt.out.empty()) { std::ofstream f(opt.out); f << o.str(); }
     else std::cout << o.str();
